@@ -495,6 +495,9 @@ def r7_non_interference(ctx: Context, v: CalibrateView) -> None:
                 par = getattr(x, "_parent", None)
                 ok = (isinstance(par, ast.keyword) and par.arg == "n_jobs") or (isinstance(par, ast.Call) and any(isinstance(t, FuncInfo) and t.name == "save_calibrator_state" for t in prog.resolve_call(f, par))) \
                     or isinstance(par, (ast.JoinedStr, ast.FormattedValue))
+                # inside create_checkpoint (or a private helper of it) every read is the persisted copy: that function is separately shown to write no
+                # calibrator state and to draw nothing, so however the value travels to the save call it cannot reach the run
+                ok = ok or prog.only_reached_from(f, {"black_it.calibrator:Calibrator.create_checkpoint"})
                 ctx.check(ok, "R7.n_jobs", f"Calibrator.{f.name}:n_jobs-use", "n_jobs reaches only Parallel(n_jobs=...), the checkpoint and a print",
                           f"n_jobs is used in `{src(par)[:60] if par is not None else '?'}`", f, x)
     # saving folder: controls only the checkpoint write
